@@ -24,7 +24,9 @@ leave the sequence number alone, produced messages are numbered consecutively mo
 sequence of calls; (d) affine law, every burst ≤ 32 bits and every alteration of the CRC field is rejected
 by `validate_crc`, `IsValid`, the framer's comparison and the Python stream decoder; (e) the polynomial
 has period 2^32 - 1, hence two altered bits at ANY distance (both in the protected region, both in the CRC
-field, or one in each) are rejected.
+field, or one in each) are rejected; (f) `C06_oversize_rejected`: for every value of the size field that puts
+the message above the limit (up to 24 + (2^32 - 1), no wrap-around) `IsValid` answers false from the header
+alone and the Python validator / decoder refuse it.
 
 What does NOT hold, and why (`C06_size_field_flip_accepted`, `C06_burst_rejected_full_fails`): when the
 alteration hits the `payload_size_bytes` field the validators compute the CRC over a different extent, and
@@ -386,7 +388,40 @@ theorem C06_burst_rejected_full_fails :
   rw [w.2.2.2.2.2.2.1] at this
   cases this
 
+/-! ## The size field: what holds for every value of it -/
+
+/-- The size sanity limits are decided on the 24 header bytes alone and for EVERY value of the 32-bit
+`payload_size_bytes` field, the values next to 2^32 included (the sum `24 + payload_size_bytes` is formed
+without wrap-around): on any buffer that holds at least a header announcing a message above the limit,
+`IsValid` answers false and reads nothing behind the header (the model's answer is never `none`, "would
+read outside the buffer"), `unpack(validate_crc=True)` / `validate_crc` raise, and the Python decoder
+emits no message there, whatever its `max_payload_len_bytes`.  A header announcing more bytes than the
+buffer holds is likewise refused by the Python validator.  The harness compares `IsValid`, `validate_crc`,
+the framer and the decoder with this verdict on altered size fields at every such boundary, in exact-size
+and in larger heap buffers. -/
+theorem C06_oversize_rejected (msg : Bytes) (h24 : HDR ≤ msg.length) :
+    (MAX_EXPECTED < HDR + u32le msg 16 → cxxIsValid msg = some false) ∧
+    (MAX_EXPECTED < u32le msg 16 → pyUnpackValidate msg = some false ∧ pyCrcOk msg = false ∧
+      ∀ m n, (cfgPy m).step msg ≠ .emit n) ∧
+    (msg.length < HDR + u32le msg 16 → pyUnpackValidate msg = some false) := by
+  refine ⟨fun h => ?_, fun h => ⟨?_, ?_, ?_⟩, fun h => ?_⟩
+  · unfold cxxIsValid; rw [if_neg (by omega), if_pos h]
+  · unfold pyUnpackValidate; rw [if_neg (by omega), if_pos h]
+  · unfold pyCrcOk; simp; omega
+  · intro m n hn
+    rw [C04_accept_criteria] at hn
+    unfold MAX_EXPECTED at h; omega
+  · unfold pyUnpackValidate
+    rw [if_neg (by omega)]
+    split <;> rfl
+
 /-! ## Non-vacuity -/
+
+/-- A 24-byte header whose size field is 0xFFFFFFFF (24 + size = 2^32 + 23): hypotheses of
+`C06_oversize_rejected` hold. -/
+example : HDR ≤ (c06Crafted.take 16 ++ [0xFF, 0xFF, 0xFF, 0xFF] ++ (c06Crafted.drop 20).take 4).length ∧
+    MAX_EXPECTED < HDR + u32le (c06Crafted.take 16 ++ [0xFF, 0xFF, 0xFF, 0xFF] ++ (c06Crafted.drop 20).take 4) 16 := by
+  decide
 
 /-- The encoder model on a concrete call (type 10000, version 1, sequence 5, source 7, two payload
 bytes): hypotheses of `C06_encoder_valid` hold, and the bytes are the ones the Python encoder
